@@ -712,10 +712,26 @@ class KHistogram(Kind):
 
 
 class KGraph(Kind):
-    """deprecated element with a reset method: reset clause only"""
+    """deprecated element: the filled points (sorted when sort is set), reset clause"""
     name = "Graph"
-    has_model = False
     fresh_results = False     # yields itself
+
+    def check(self, cfg, hist, started, outcome):
+        r, err = one_result(outcome)
+        if err:
+            return err
+        data, ctx = split_result(r)
+        try:
+            pts = list(data.points)
+        except Exception as e:  # noqa: BLE001
+            return ("value", "Graph.points raised %r" % (e,))
+        exp = [h[0] for h in hist]
+        if cfg["sort"]:
+            exp = sorted(exp)
+        if pts != exp:
+            return ("value", "Graph yielded points %r; the filled points%s are %r"
+                    % (pts, " sorted" if cfg["sort"] else "", exp))
+        return None
 
     def draw_cfg(self, tape):
         return {"sort": bool(tape.draw(2, "sort")), "scale": tape.choice([None, None, 2], "scale"),
@@ -785,9 +801,11 @@ def gen_scenario(tape):
     return sc
 
 
-def take(r, touch):
+def take(r, touch, originals=None):
     """what the driver keeps of a result: with *touch*, a snapshot taken at receipt, after which the
     result's context is updated in place (as the next lena element would do)"""
+    if originals is not None:
+        originals.append(r)
     if not touch:
         return r
     snap = copy.deepcopy(r)
@@ -797,7 +815,7 @@ def take(r, touch):
     return snap
 
 
-def do_compute(el, partial, touch=False):
+def do_compute(el, partial, touch=False, originals=None):
     """('ok', results) or ('raise', exc); results are consumed one by one"""
     method = getattr(el, "compute", None) or getattr(el, "request")
     try:
@@ -805,14 +823,14 @@ def do_compute(el, partial, touch=False):
         out = []
         if partial:
             try:
-                out.append(take(next(g), touch))
+                out.append(take(next(g), touch, originals))
             except StopIteration:
                 pass
             if hasattr(g, "close"):
                 g.close()
             return ("ok", out)
         for r in g:
-            out.append(take(r, touch))
+            out.append(take(r, touch, originals))
         return ("ok", out)
     except Exception as e:  # noqa: BLE001
         return ("raise", e)
@@ -838,6 +856,7 @@ def run(tape):
     started = True
     nresets = 0
     fills_total = 0
+    kept = []              # (result objects, their canonical form) of earlier computes
     last_snap = None       # snapshot of the last compute with no fill / reset since
     seen_ctx = False
     if any(cfg.get(k) for k in ("start",)):
@@ -855,7 +874,23 @@ def run(tape):
         res.viol("C09:%s:%s:unexpected-exception:%s@%s" % (cls, where, type(e).__name__,
                                                           exception_site(e)), repr(e)[:300])
 
+    stable = kind.name in ("Sum", "DSum", "Mean", "VarianceMeanCount", "Vectorize", "Count", "StoreFilled")
+
+    def earlier_results_intact(after):
+        # what was yielded earlier belongs to the consumer: no later fill, compute or reset of the
+        # element may change it (StoreFilled documents that it yields a copy of its group for this
+        # reason; Histogram, Graph and GroupBy yield live objects and are not judged here)
+        for objs, snap in kept:
+            if canon(objs) != snap:
+                res.viol("C09:%s:earlier-result-changed-by-%s" % (cls, after),
+                         "a result yielded earlier was %r and is %r after a later %s"
+                         % (summarize(snap), summarize(canon(objs)), after))
+                return False
+        return True
+
     for i, op in enumerate(sc.ops):
+        if kept and i and not earlier_results_intact(sc.ops[i - 1][0]):
+            return res
         if op[0] == "fill":
             _, data, ckind, ctx = op
             ctx_el = copy.deepcopy(ctx)
@@ -904,10 +939,15 @@ def run(tape):
                 res.fault("partial-compute-abandoned")
             if not hist:
                 res.fault("compute-on-empty")
-            outcome = do_compute(el, partial, touch=kind.fresh_results)
+            originals = [] if stable else None
+            outcome = do_compute(el, partial, touch=kind.fresh_results, originals=originals)
             if outcome[0] == "raise" and exception_origin(outcome[1]) != "lena":
                 raise outcome[1]
             snap = snapshot(outcome)
+            if stable and outcome[0] == "ok" and not partial and len(kept) < 6:
+                # StoreFilled's group list is the result; its items are the filled values themselves
+                # the objects the element handed out (after the driver's own downstream update)
+                kept.append((originals, canon(originals)))
             log.ev("result", cls, summarize(snap))
             res.say("%s() -> %s" % ("compute" if not partial else "compute [one result taken]",
                                     summarize(snap)))
@@ -971,4 +1011,6 @@ def run(tape):
             hist = []
             last_snap = None
             twin = kind.build(cfg, fresh=True)
+    if kept and sc.ops:
+        earlier_results_intact(sc.ops[-1][0])
     return res
